@@ -695,6 +695,8 @@ class TermCanvas(Canvas):
         dc = self.modes.display_ctrl
 
         if char == ESC_B and self.parsestate != 2:  # escape
+            # an ESC abandons an unfinished sequence and starts a new one
+            self.leave_escape()
             self.within_escape = True
         elif not dc and char == b"\r":  # carriage return CR
             self.carriage_return()
